@@ -208,9 +208,167 @@ def axioms_for(atom_list):
     return And(*ax) if ax else T
 
 
+def _tseitin(f):
+    """CNF (list of int-literal lists) equisatisfiable with f; returns (clauses, atom->var, nvars)"""
+    var_of = {}
+    atom_var = {}
+    clauses = []
+    counter = [0]
+
+    def new():
+        counter[0] += 1
+        return counter[0]
+
+    def enc(g):
+        if g in var_of:
+            return var_of[g]
+        k = g[0]
+        if k == 'a':
+            v = atom_var.get(g[1])
+            if v is None:
+                v = new()
+                atom_var[g[1]] = v
+            var_of[g] = v
+            return v
+        if k == '!':
+            v = -enc(g[1])
+            var_of[g] = v
+            return v
+        if k == 'T':
+            v = new()
+            clauses.append([v])
+            var_of[g] = v
+            return v
+        if k == 'F':
+            v = new()
+            clauses.append([-v])
+            var_of[g] = v
+            return v
+        subs = [enc(x) for x in g[1]]
+        v = new()
+        if k == '&':
+            for x in subs:
+                clauses.append([-v, x])
+            clauses.append([v] + [-x for x in subs])
+        else:
+            for x in subs:
+                clauses.append([v, -x])
+            clauses.append([-v] + subs)
+        var_of[g] = v
+        return v
+
+    root = enc(f)
+    clauses.append([root])
+    return clauses, atom_var, counter[0]
+
+
+def _dpll(clauses, nvars, limit):
+    """plain DPLL with unit propagation (exhaustive case split with pruning); model or None"""
+    assign = [0] * (nvars + 1)     # 0 unassigned, 1 true, -1 false
+    occ = {}
+    for ci, c in enumerate(clauses):
+        for l in c:
+            occ.setdefault(l, []).append(ci)
+    trail = []
+    steps = [0]
+
+    def value(l):
+        a = assign[abs(l)]
+        return a if l > 0 else -a
+
+    def propagate(queue):
+        while queue:
+            l = queue.pop()
+            v = value(l)
+            if v == 1:
+                continue
+            if v == -1:
+                return False
+            assign[abs(l)] = 1 if l > 0 else -1
+            trail.append(abs(l))
+            for ci in occ.get(-l, ()):
+                c = clauses[ci]
+                unassigned = None
+                sat_ = False
+                n_un = 0
+                for x in c:
+                    vx = value(x)
+                    if vx == 1:
+                        sat_ = True
+                        break
+                    if vx == 0:
+                        n_un += 1
+                        unassigned = x
+                if sat_:
+                    continue
+                if n_un == 0:
+                    return False
+                if n_un == 1:
+                    queue.append(unassigned)
+        return True
+
+    units = [c[0] for c in clauses if len(c) == 1]
+    if any(len(c) == 0 for c in clauses):
+        return None
+    if not propagate(list(units)):
+        return None
+
+    def solve():
+        steps[0] += 1
+        if steps[0] > limit:
+            raise Budget()
+        # pick an unassigned variable from the shortest unsatisfied clause
+        best = None
+        for c in clauses:
+            sat_ = False
+            un = []
+            for x in c:
+                vx = value(x)
+                if vx == 1:
+                    sat_ = True
+                    break
+                if vx == 0:
+                    un.append(x)
+            if sat_:
+                continue
+            if not un:
+                return False
+            if best is None or len(un) < len(best):
+                best = un
+                if len(best) == 2:
+                    break
+        if best is None:
+            return True
+        l = best[0]
+        for cand in (l, -l):
+            mark = len(trail)
+            if propagate([cand]) and solve():
+                return True
+            while len(trail) > mark:
+                assign[trail.pop()] = 0
+        return False
+
+    if solve():
+        return assign
+    return None
+
+
 def sat(f, extra_axioms=T, limit=200000):
-    ax = axioms_for(atoms(And(f, extra_axioms)))
-    return _sat(And(f, ax, extra_axioms), [limit])
+    """satisfiability by exhaustive case analysis over the atoms (Tseitin + DPLL); model dict or None"""
+    g = And(f, extra_axioms)
+    if g == F:
+        return None
+    ax = axioms_for(atoms(g))
+    g = And(g, ax)
+    if g == T:
+        return {}
+    if g == F:
+        return None
+    clauses, atom_var, nvars = _tseitin(g)
+    a = _dpll(clauses, nvars, limit)
+    if a is None:
+        return None
+    return {atom: (a[v] == 1) for atom, v in atom_var.items() if a[v] != 0}
 
 
 def entails(p, q, extra_axioms=T):
